@@ -202,6 +202,13 @@ def rule_t1(ctx, facts):
             if c and c["kind"] == "is_null" and c["arg"] is not None:
                 tests.setdefault(c["arg"], set()).add((blk, c["false"]))
                 null_edges.setdefault(c["arg"], set()).add((blk, c["true"]))
+            elif c and c["kind"] == "is_none" and c.get("arg") is not None:
+                # `p.as_ref()` is None exactly when p is null: the Some edge of a test of an Option that derives from the pointer by views
+                # only (`if let Some(t) = table.as_ref()`, `table.as_ref().map_or(true, ..)` once expanded) is a non-null test of it
+                for h in fl.roots(c["arg"], through_agg=False)[1]:
+                    if h != c["arg"] and b.ty(h).get("base") == "reclaim::Shared":
+                        tests.setdefault(h, set()).add((blk, c["false"]))
+                        null_edges.setdefault(h, set()).add((blk, c["true"]))
             elif c and c["kind"] == "ptr_eq" and c["a"] is not None and c["b"] is not None:
                 # T1b sentinel-bounded walk: `cursor != s` where s was copied from the cursor earlier in the same walk (s was
                 # dereferenced then, so it is a live node of the list and is met before the null terminator)
@@ -630,7 +637,8 @@ def rule_t5(ctx, facts, rule="T5"):
             if not cd or cd.get("arg") is None:
                 continue
             # `!next.is_null()`, or the Some edge of `next.as_ref()` / `Option<&BinEntry>` derived from the link by views only
-            if cd["kind"] == "is_null" and cd["arg"] in fl.copies_of(N):
+            if cd["kind"] == "is_null" and (cd["arg"] in fl.copies_of(N) or N in fl.roots(cd["arg"])[1]):
+                # the link itself, or the link carried through `Some(..)` / a closure parameter of an expanded combinator
                 edges.append((blk, cd["false"]))
             elif cd["kind"] == "is_none" and N in fl.roots(cd["arg"], through_agg=False)[1]:
                 edges.append((blk, cd["false"]))
